@@ -4,6 +4,7 @@ import Driver.NumCmds
 import Driver.MemCmds
 import Driver.LitCmds
 import Driver.EmitCmds
+import Driver.SimCmds
 
 open Driver
 
@@ -28,6 +29,9 @@ def handle (line : String) : String :=
 partial def loop (h : IO.FS.Stream) (out : IO.FS.Stream) (sess : EmitSession) : IO Unit := do
   let line ← h.getLine
   if line.isEmpty then return ()
+  match simCmd sess (words line) with
+  | some r => out.putStrLn r; loop h out sess
+  | none =>
   match emitCmd sess (words line) with
   | some (sess', r) => out.putStrLn r; loop h out sess'
   | none => out.putStrLn (handle line); loop h out sess
